@@ -23,6 +23,7 @@ import json
 import os
 import random
 import shutil
+import tempfile
 
 from .. import core
 from .. import staticlib as sl
@@ -64,8 +65,13 @@ def replay(ctx, recs, stats):
                 ctx.violation("construct:raised:%s" % exc_name(exc),
                               {"tree": sl.sig(els), "tuples": tuples, "exception": repr(exc)})
                 continue
-            obs, rt = sl.observe(els, objs)
+            obs, rt, changed = sl.observe(els, objs)
             _clean_cwd()
+            par = sl.parents(els)
+            for (i, before, after) in changed:
+                pk = els[par[i] - 1]["k"] if i in par else "root"
+                ctx.violation("%s:changed-by-run:in-%s" % (els[i - 1]["k"], pk),
+                              {"tree": sl.sig(els), "element": i, "before_run": before, "after_run": after})
             results = [sl.compare(els, a, obs, rt) for a in alts]
             ctx.case(["tree", els, tuples], nontrivial=len(els) > 1)
             stats["observations"] += sum(1 for o in obs if o and not o.get("skip")) + 1
@@ -86,7 +92,7 @@ def replay(ctx, recs, stats):
 
 
 # ---------------------------------------------------------------------------- C2S
-KEYS = (["ka"], ["kb"], ["kc"], ["kd", "ke"], ["kd", "kf"])
+KEYS = (["ka"], ["kb"], ["kc"], ["kd", "ke"], ["kd", "kf"], ["output", "kx"])
 
 
 def _lit(ch):
@@ -114,6 +120,7 @@ CONSUMERS = [
     ("mf", _fmt(_fld(["ka"]), _lit("_"), _fld(["kb"]))),
     ("mf", _fmt(_fld(["kc"]))),
     ("mf", _fmt(_fld(["kd", "ke"]), _lit("x"))),
+    ("mf", _fmt(_fld(["output", "kx"]))),
     ("write", _fmt(_fld(["ka"]))),
     ("write", _fmt(_fld(["kb"]), _lit("_"), _fld(["kd", "ke"]))),
     ("cache", _fmt(_fld(["kc"]), _lit(".pkl"))),
@@ -145,7 +152,7 @@ def random_tree(rnd, max_tok, max_depth=3):
     els = []
     budget = [rnd.randint(3, max_tok)]
     # few keys per tree, so that branches of a Split often set the same key
-    keys = rnd.sample(KEYS, rnd.choice([2, 3, 5]))
+    keys = rnd.sample(KEYS, rnd.choice([2, 3, 6]))
 
     def add(e):
         els.append(e)
@@ -223,9 +230,9 @@ def c2s(ctx, n, max_tok, stats):
             ctx.violation("construct:raised:%s" % exc_name(exc),
                           {"tree": sl.sig(els), "tuples": tuples, "exception": repr(exc)})
             continue
-        obs, rt = sl.observe(els, objs)
+        obs, rt, changed = sl.observe(els, objs)
         _clean_cwd()
-        trace.append(sl.record(els, obs, rt))
+        trace.append(sl.record(els, obs, rt, stable=not changed))
     # validate; a rejected record is localised (which observation) and validation goes on
     # behind it (at most 3 / 8 times, each rejection is a violation)
     accepted = []
@@ -294,12 +301,21 @@ def demo_defect_models(ctx):
 
 
 def run(ctx):
+    # private scratch directory: a concurrent invocation of the same check wipes build/<ID>
+    ctx.workdir = tempfile.mkdtemp(prefix=ctx.pid + "_", dir=core.BUILD)
+    try:
+        return _run(ctx)
+    finally:
+        shutil.rmtree(ctx.workdir, ignore_errors=True)
+
+
+def _run(ctx):
     tag = "thorough" if ctx.thorough else "quick"
     ctx.assume("keys ka kb kc kd.ke; values 1, 2, '1' and formatting strings made of one-character "
                "literals; formatting fields never name a dictionary-valued key")
     ctx.assume("empty nested dictionaries are removed before contexts are compared")
     ctx.assume("after the first unresolved formatting key (document order) nothing is compared except "
-               "that _get_context raises LenaKeyError naming a formatting key")
+               "that _get_context raises LenaKeyError naming a key that is unresolvable below that node")
     ctx.assume("a Split branch that is a bare fill/compute element: three readings accepted (ignored and "
                "{} if no other branch; ignored and transparent; counts with the copy it was handed)")
     stats = {"observations": 0, "policy_trees": 0, "policies_matched": collections.Counter(),
@@ -322,6 +338,13 @@ def run(ctx):
     os.chdir(scratch)
     try:
         ntrees = 0
+        # focused alphabets, deeper: checked (all invariants) and exported in one single-worker run
+        focus = ["StaticContext_focus1.cfg", "StaticContext_focus2.cfg", "StaticContext_focus3.cfg"]
+        if ctx.thorough:
+            focus.append("StaticContext_focus2_deep.cfg")
+        for cfg in focus:
+            recs = ctx.export("StaticContext", cfg, min_records=100)
+            ntrees += replay(ctx, recs, stats)
         for cfg in cfgs:
             recs = ctx.export("StaticContext", cfg.replace(".cfg", "_export.cfg"), min_records=1000)
             ntrees += replay(ctx, recs, stats)
@@ -336,10 +359,11 @@ def run(ctx):
     ctx.extra["c13"] = stats
     return ctx.finish(
         rule="S2C: every finished tree of the bounded machine (quick: <= 4 tokens over 11 leaf kinds with "
-             "every root kind, <= 5 tokens over 5 leaf kinds; thorough: <= 5 / <= 6 tokens), built from the "
-             "real classes (Split branches as Sequence and as tuple), every consumer / sequence observable "
+             "every root kind, <= 5 tokens over 5 leaf kinds, focused alphabets to 6 tokens; thorough: <= 5 / "
+             "<= 6 / <= 7 tokens), built from the real classes (Split branches as Sequence and as tuple), every "
+             "consumer / sequence observable compared before and after two values are run through the root, "
              "and the run-time contexts compared; non-trivial = more than one object; C2S: seeded random "
-             "trees (<= 10 / 14 tokens, depth <= 3, 20 leaf kinds) validated by Trace_StaticContext",
+             "trees (<= 10 / 14 tokens, depth <= 3, 22 leaf kinds) validated by Trace_StaticContext",
         exhaustive=True)
 
 
